@@ -184,10 +184,6 @@ Proof. vm_compute. reflexivity. Qed.
 Lemma kernel_model_probe : LOOP_KERNEL_EPOLL_AS_MODELLED = 1.
 Proof. reflexivity. Qed.
 
-(* the tree the constants were generated from contains both repairs *)
-Lemma tree_repaired : fx_sigdel tree_fixes = true /\ fx_polladd tree_fixes = true.
-Proof. split; reflexivity. Qed.
-
 (* non-vacuity: a history with deletions of queued items from inside callbacks, signals, a negative return *)
 Definition ex_beh8 : behaviour := fun key n =>
   if (key =? 1) && (n =? 0) then ([OJobDel Med 2; OTimerDel 0; OPollDel 100; OSigDel 100], 0)
